@@ -381,12 +381,17 @@ func round(ctx *context, args []Datum) (retNum Datum) {
 
 	num0 := args[0].Number("round()")
 
-	// Trunc() rounds towards zero.
-	var rounded = 0.0
-	if num0 >= 0 {
-		rounded = float64(math.Trunc(0.5 + num0))
-	} else {
-		rounded = -float64(math.Trunc(0.5 - num0))
+	// Closest integer, ties towards positive infinity; NaN and infinities
+	// are returned unchanged, and anything in [-0.5, -0] gives negative zero.
+	if math.IsNaN(num0) || math.IsInf(num0, 0) {
+		return NewNumDatum(num0)
+	}
+	rounded := math.Floor(num0)
+	if num0-rounded >= 0.5 {
+		rounded++
+	}
+	if rounded == 0 && (num0 < 0 || math.Signbit(num0)) {
+		rounded = math.Copysign(0, -1)
 	}
 
 	return NewNumDatum(rounded)
